@@ -286,6 +286,13 @@ func (c *Channel) Invoke(ctx context.Context, method string, req, resp interface
 			}
 			if !ok {
 				// no more messages
+				if err := ctx.Err(); err != nil {
+					// Once the context is done the server goroutine may have
+					// dropped frames (the response, the trailers, the error)
+					// instead of sending them, so what we have seen is not
+					// known to be the complete outcome.
+					return internal.TranslateContextError(err)
+				}
 				if !gotResponse {
 					return io.EOF
 				}
